@@ -59,6 +59,7 @@ func main() {
 		}
 		var toks []string
 		counted := 0
+		wantA, wantR, wantC := 0, 0, 0
 		seen := map[int]bool{}
 		nrep := 1 + rng.Intn(8)
 		for r := 0; r < nrep; r++ {
@@ -76,6 +77,7 @@ func main() {
 				commit.ParentHashes = append(commit.ParentHashes, plumbing.Hash{byte(100 + p)})
 			}
 			var changes object.Changes
+			var fileStats []items.LineStats
 			langs := map[plumbing.Hash]string{}
 			ls := map[object.ChangeEntry]items.LineStats{}
 			var st []string
@@ -88,6 +90,17 @@ func main() {
 				lang := langsPool[rng.Intn(len(langsPool))]
 				langs[bh] = lang
 				s := items.LineStats{Added: rng.Intn(30), Removed: rng.Intn(30), Changed: rng.Intn(30)}
+				// files with only in-place replacements, only insertions, only deletions
+				if rng.Intn(3) == 0 {
+					s.Added = 0
+				}
+				if rng.Intn(3) == 0 {
+					s.Removed = 0
+				}
+				if rng.Intn(4) == 0 {
+					s.Changed = 0
+				}
+				fileStats = append(fileStats, s)
 				ls[entry] = s
 				l := lang
 				if l == "" {
@@ -110,6 +123,11 @@ func main() {
 			}
 			if pass && (nch > 0 || ce) {
 				counted++
+				if !mflag { // a replay flagged as merge counts the commit, its line statistics are ignored
+					for _, fs := range fileStats {
+						wantA, wantR, wantC = wantA+fs.Added, wantR+fs.Removed, wantC+fs.Changed
+					}
+				}
 			}
 		}
 		cef := 0
@@ -161,6 +179,15 @@ func main() {
 		caseJSON := fmt.Sprintf(`{"consider_empty":%v,"replays":%q}`, ce, strings.Join(toks, " "))
 		if bad != "" {
 			hv.Fail("devs-consume", caseJSON, bad)
+		}
+		gotA, gotR, gotC := 0, 0, 0
+		for _, dd := range res.Ticks {
+			for _, dt := range dd {
+				gotA, gotR, gotC = gotA+dt.Added, gotR+dt.Removed, gotC+dt.Changed
+			}
+		}
+		if gotA != wantA || gotR != wantR || gotC != wantC {
+			hv.Fail("devs-consume", caseJSON, fmt.Sprintf("added/removed/changed lines total %d/%d/%d, the counted replays carry %d/%d/%d", gotA, gotR, gotC, wantA, wantR, wantC))
 		}
 		if total != counted {
 			hv.Fail("devs-consume", caseJSON, fmt.Sprintf("%d commits attributed, %d replays count (first replay of each merge commit, every other commit; empty ones only if configured)", total, counted))
